@@ -34,6 +34,10 @@ CHECKS = {
                 text="All well-sorted trees of depth <= 2 over the atom set are enumerated and deeper/n-ary ones sampled; each is built through add_* and its truth table over 20 valuations compared three ways; detects any simplification or printing step that changes a truth value on the explored trees.",
                 note="own S-expression reader/evaluator; uninterpreted f fixed to one total function; the depth-2 enumeration is complete for the stated atom set, deeper trees are sampled",
                 ref="DESIGN.md section 3 C18"),
+    "C15": dict(level="exploration", technique="property-based round-trip testing: shipped + Hypothesis-synthesised solc documents (to_json(parse(D)) == D), generated blocks through both text renderings, constant spellings against an independent reader",
+                text="Round-trip oracles over all shipped documents, generated documents with every optional field/pseudo-push kind, generated blocks (two text formats) and eight textual spellings per constant; finds any field dropped, invented or re-valued on the explored inputs.",
+                note="JSON equality as values (key order ignored), modulo the documented PUSH0 spelling; contracts without asm are generated as {} as in the shipped corpus",
+                ref="DESIGN.md section 3 C15"),
 }
 
 NOT_YET = {}
